@@ -444,7 +444,7 @@ def run_property(prop, cfg, tier, seed, only_stage=None, post=None):
     """cfg: dict(stages=[Stage], rule=str, assumptions=[str], min_counts={counter: min}, post=callable)"""
     t0 = time.time()
     known = load_known()
-    workdir = os.path.join(VERIF, ".build", "runs", "%s-%s" % (prop, tier))
+    workdir = os.path.join(build.BUILD_ROOT, "runs", "%s-%s" % (prop, tier))
     shutil.rmtree(workdir, ignore_errors=True)
     os.makedirs(workdir)
     results = []
@@ -583,7 +583,7 @@ def replay(prop, cfg, path):
     exe = build.compile_harness(st.variant, st.sources, "%s_%s" % (prop.lower(), st.name),
                                 extra_cflags=st.extra_cflags, wrap=st.wrap, extra_ld=st.extra_ld,
                                 hooks_in_harness=st.hooks_in_harness)
-    outdir = os.path.join(VERIF, ".build", "runs", "%s-replay" % prop)
+    outdir = os.path.join(build.BUILD_ROOT, "runs", "%s-replay" % prop)
     shutil.rmtree(outdir, ignore_errors=True)
     os.makedirs(outdir)
     cmd = _harness_cmd(exe, st, info["seed"], start, cases, 0, outdir, 1)
